@@ -5,6 +5,7 @@
 #include "gen.h"
 #include <mutex>
 #include <set>
+#include <unordered_map>
 #include <unistd.h>
 
 namespace
@@ -14,6 +15,8 @@ std::vector<Entry> ENTRIES;
 Fn SQ_AB, SQ_STD;
 std::string g_points_path; // set through VERIF_POINTS (C08 only): sample points for the constant-evaluator arm
 
+void reassign_init();
+void build_fn_index();
 void diff_init()
   {
   ENTRIES.clear();
@@ -27,12 +30,13 @@ void diff_init()
     if(n == "cplusplus" || n == "sqrt_constexpr_available") continue; // harness helpers describing the configuration, not library behaviour
     if(!entry_domain(n, d)) { fprintf(stderr, "HARNESS-ERROR: wrapper entry %s has no argument domain\n", n.c_str()); _exit(2); }
     Entry e; e.name = n; e.dom = d; e.fn = resolve(n.c_str());
-    e.sqrt_dependent = n == "sqrt" || n == "hypot" || n == "asin" || n == "acos";
+    e.sqrt_dependent = n == "sqrt" || n == "hypot" || n == "asin" || n == "acos" || n == "sqrt_reassign";
     e.double_result = n.find("f64") != std::string::npos && (n.rfind("cast_", 0) == 0 || n.rfind("f2a_", 0) == 0 || n.rfind("f2fp_", 0) == 0 || n.rfind("add_", 0) == 0 || n.rfind("sub_", 0) == 0 || n.rfind("mul_", 0) == 0 || n.rfind("div_", 0) == 0);
-    e.constexpr_claimed = !rt_only.count(n);
+    e.constexpr_claimed = !rt_only.count(n) && n.find("_reassign") == std::string::npos; // the stateful shapes use a volatile sink
     ENTRIES.push_back(e);
     }
-  SQ_AB = resolve("sqrt_abacus"); SQ_STD = resolve("sqrt_std_math");
+  SQ_AB = resolve("sqrt_abacus"); SQ_STD = resolve("sqrt_std_math"); reassign_init();
+  build_fn_index();
   if(const char * p = getenv("VERIF_POINTS")) g_points_path = p;
   }
 inline int64_t canon(const Entry & e, int64_t v) { if(e.double_result && std::isnan(bits2d(v))) return 0x7ff8000000000000ll; return v; }
@@ -64,6 +68,87 @@ void j_diff(Ctx & c, int64_t a, int64_t b, int64_t ei)
     int64_t v = canon(e, r.v);
     if(!have[g]) { have[g] = true; ref[g] = v; refci[g] = (int)ci; }
     else if(v != ref[g]) c.violation(e.name + "/configurations-disagree", (int)ci, a, b, ei, i2s(v), i2s(ref[g]) + " in " + g_cfgs[(size_t)refci[g]].name);
+    }
+  }
+struct Reassign { Fn shaped, plain; int which; }; // which: 0 unary (a^K), 1 right operand (b^K), 2 left operand (a^K)
+std::vector<Reassign> REASSIGN;
+void reassign_init()
+  {
+  REASSIGN.clear();
+  for(const char * op : { "add", "sub", "mul", "div" })
+    {
+    std::string o = op;
+    REASSIGN.push_back({ resolve((o + "_reassign").c_str()), resolve((o + "_ff").c_str()), 1 });
+    REASSIGN.push_back({ resolve((o + "_reassign_l").c_str()), resolve((o + "_ff").c_str()), 2 });
+    }
+  for(const char * u : { "cast_i32", "cast_i64", "cast_u16", "cast_f64", "cast_f32", "neg", "abs", "isnan", "sin", "sqrt", "floor", "ceil" })
+    REASSIGN.push_back({ resolve((std::string(u) + "_reassign").c_str()), resolve(u), 0 });
+  }
+// same operation twice in one function with an operand modified in between: the second result must be what the plain
+// entry point returns for the modified operands (c = index of the shape)
+void j_reassign(Ctx & c, int64_t a, int64_t b, int64_t which)
+  {
+  if(which < 0 || which >= (int64_t)REASSIGN.size() || a == INT64_MIN || b == INT64_MIN) return;
+  Reassign & r = REASSIGN[(size_t)which];
+  int64_t a2 = r.which == 1 ? a : (a ^ 0x5a5a), b2 = r.which == 1 ? (b ^ 0x5a5a) : b;
+  if(a2 == INT64_MIN || b2 == INT64_MIN) return;
+  if(r.which != 0 && r.plain.entry == "div_ff" && (!model_finite(a) || !model_finite(a2))) return;
+  c.stratum("stateful-shape");
+  for(size_t ci = 0; ci < g_cfgs.size(); ++ci)
+    {
+    CallRes s = c.call(r.shaped.f[ci], a, b), p = c.call(r.plain.f[ci], a2, r.which == 0 ? 0 : b2);
+    if(s.sig || p.sig) { c.signal_event((int)ci, r.shaped.entry.c_str(), a, b, s.sig ? s.sig : p.sig); continue; }
+    bool dbl = r.plain.entry == "cast_f64";
+    if(s.v != p.v && !(dbl && std::isnan(bits2d(s.v)) && std::isnan(bits2d(p.v))))
+      c.violation(r.shaped.entry + "/second-result-stale-or-wrong", (int)ci, a, b, which, i2s(s.v), i2s(p.v) + " (= " + r.plain.entry + " on the modified operand)");
+    }
+  }
+// ---- differential replay of the other properties' workloads -------------------------------------------------------
+// The judges of C01..C20 call one entry point with the same arguments in every configuration. While their workloads run
+// under this hook, the results of such a group of calls are compared bit for bit (within a sqrt-algorithm group), so C08
+// sees every frontier input the property-specific generators produce, not only the generic argument domains.
+std::unordered_map<fn2, std::pair<int, int>> FN_INDEX; // wrapper address -> (entry index, configuration index)
+struct Pending { int64_t a = 0, b = 0; bool valid = false; uint64_t have = 0; int64_t v[64]; };
+thread_local std::vector<Pending> t_pending;
+void diff_hook(Ctx & c, fn2 f, int64_t a, int64_t b, const CallRes & r)
+  {
+  auto it = FN_INDEX.find(f);
+  if(it == FN_INDEX.end() || r.sig) return;
+  int ei = it->second.first, ci = it->second.second;
+  if(t_pending.size() != ENTRIES.size()) t_pending.assign(ENTRIES.size(), Pending());
+  Pending & p = t_pending[(size_t)ei]; Entry & e = ENTRIES[(size_t)ei];
+  if(!p.valid || p.a != a || p.b != b) { p.valid = true; p.a = a; p.b = b; p.have = 0; }
+  int64_t v = canon(e, r.v);
+  auto group = [&](int k) { return e.sqrt_dependent ? (g_cfgs[(size_t)k].sqrt_algo == 1 ? 1 : (g_cfgs[(size_t)k].sqrt_algo == 0 ? 0 : 2)) : 0; };
+  for(int k = 0; k < (int)g_cfgs.size() && k < 64; ++k)
+    if(k != ci && (p.have >> k & 1) && group(k) == group(ci) && p.v[k] != v)
+      {
+      const char * saved = c.cur_check; c.cur_check = "diff";
+      c.violation(e.name + "/configurations-disagree", ci, a, b, ei, i2s(v), i2s(p.v[k]) + " in " + g_cfgs[(size_t)k].name + " (seen while replaying the workload of " + saved + ")");
+      c.cur_check = saved;
+      break;
+      }
+  if(ci < 64) { p.v[ci] = v; p.have |= 1ull << ci; }
+  }
+void build_fn_index()
+  {
+  FN_INDEX.clear();
+  for(size_t ei = 0; ei < ENTRIES.size(); ++ei) for(size_t ci = 0; ci < g_cfgs.size(); ++ci) FN_INDEX[ENTRIES[ei].fn.f[ci]] = { (int)ei, (int)ci };
+  for(Property * q : registry()) if(std::string(q->id) != "C07" && std::string(q->id) != "C08") q->init(); // handles of the foreign judges
+  }
+void replay_foreign_workloads(Ctx & c)
+  {
+  for(Property * q : registry())
+    {
+    std::string id = q->id;
+    if(id == "C07" || id == "C08") continue;
+    Ctx d; d.shard = c.shard; d.nshards = c.nshards; d.thorough = c.thorough; d.seed = c.seed; d.scale = c.scale * 0.2; d.prop = q; d.nontrivial_cap = 1;
+    d.rng.seed(c.seed, 5000 + (uint64_t)c.shard + 97 * strhash(q->id) % 100003);
+    d.call_hook = diff_hook; d.suppress_foreign = true;
+    q->run(d);
+    c.st.evaluations += d.st.evaluations; c.st.cases += d.st.cases;
+    c.stratum((std::string("workload-of-") + id).c_str(), d.st.cases);
+    for(auto & kv : d.st.vio) { VioClass & t = c.st.vio[kv.first]; t.count += kv.second.count; for(auto & pc : kv.second.per_cfg) t.per_cfg[pc.first] += pc.second; for(auto & w : kv.second.wit) if(t.wit.size() < 6) t.wit.push_back(w); }
     }
   }
 void j_sqrt_algos(Ctx & c, int64_t x, int64_t, int64_t)
@@ -138,7 +223,15 @@ void c07_run(Ctx & c) { drive_all(c, P_C07.checks[0], false); }
 void c08_run(Ctx & c)
   {
   drive_all(c, P_C08.checks[0], true);
-  const Check & SQ = P_C08.checks[1];
+  replay_foreign_workloads(c);
+  const Check & SQ = P_C08.checks[1], & RA = P_C08.checks[2];
+  { const auto & L = lattice(); uint64_t idx = 0;
+    for(size_t k = 0; k < REASSIGN.size(); ++k)
+      {
+      for(int64_t a : L) if(c.mine(idx++)) c.run_check(RA, a, L[(idx * 7) % L.size()], (int64_t)k);
+      uint64_t m = c.share(c.n(20000, 2000000));
+      for(uint64_t i = 0; i < m; ++i) c.run_check(RA, c.rng.logu(), c.rng.logu(), (int64_t)k);
+      } }
   int64_t W = c.thorough ? (1ll << 25) : (1ll << 20);
   for(int64_t x = c.shard; x < W; x += c.nshards) c.run_check(SQ, x);
   uint64_t n = c.share(c.n(400000, 40000000));
@@ -152,8 +245,9 @@ Property P_C07 = { "C07", diff_init, c07_run,
 Registrar R_C07(&P_C07);
 Property P_C08 = { "C08", diff_init, c08_run,
   { { "diff", j_diff, "entry point c called with (a,b): results bit-identical in all configurations that select the same sqrt algorithm" },
-    { "sqrt_algos", j_sqrt_algos, "|sqrt_abacus(x) - sqrt_std_math(x)| <= 1 ulp for x in [0,2^47); a = raw" } },
-  { "domain-fixed,fixed", "domain-fixed,none", "domain-fixed,shift-count", "domain-int32-angle,none", "domain-float-bits,none", "domain-double-bits,none", "domain-fixed,uint64", "domain-fixed,double-bits", "sqrt-algorithms-compared" },
+    { "sqrt_algos", j_sqrt_algos, "|sqrt_abacus(x) - sqrt_std_math(x)| <= 1 ulp for x in [0,2^47); a = raw" },
+    { "reassign", j_reassign, "stateful call-site shape c: an operation applied twice in one function with one operand object modified (xor 0x5a5a) in between; the second result must equal the plain entry point on the modified operands, at every optimisation level" } },
+  { "domain-fixed,fixed", "domain-fixed,none", "domain-fixed,shift-count", "domain-int32-angle,none", "domain-float-bits,none", "domain-double-bits,none", "domain-fixed,uint64", "domain-fixed,double-bits", "sqrt-algorithms-compared", "stateful-shape" },
   "NaN-sentinel fixed arguments and shift counts from the boundary product, every 16th random tuple, sqrt arguments >= 2^46 raw or < 16; distinct by (entry,a,b)", {}, {} };
 Registrar R_C08(&P_C08);
 }
